@@ -26,7 +26,7 @@ Counter-witnesses `tmp_distinct_counter`, `tmp_aliases_final_counter`; `tmp_dist
 -/
 import Cascette.Proofs.Path
 import Cascette.Proofs.CacheKeys
-import Cascette.Model.DiskFs
+import Cascette.Proofs.DiskFs
 namespace Cascette.Props.C20
 open Cascette.Model.Path Cascette.Model.CacheKeys Cascette.Model.DiskFs
 open Cascette.Proofs.Path Cascette.Proofs.CacheKeys
@@ -120,6 +120,52 @@ theorem paths_injective_wf_hashed (root : APath) (levels hash1 hash2 : Nat) (k1 
   paths_injective_wf root _ _ k1 k2 hr (hashed_subdirs_normal levels hash1).1
     (hashed_subdirs_normal levels hash2).1
     (by rw [(hashed_subdirs_normal levels hash1).2, (hashed_subdirs_normal levels hash2).2]) h1 h2 h
+
+/-! ### what `put` and a cold `get` touch (Model/DiskFs) -/
+
+/-- For every file-system state, root, layout and key text that is relative, has no ".." segment
+and contributes a component of its own: the file a successful `put` writes, the temporary file a
+failed `put` leaves behind (`with_extension` quirks of std 1.95 included: a name "..x" makes the
+temporary path the parent directory, on which `open` fails) and the file a cold `get` opens all lie
+below the root. -/
+theorem put_get_confined (fs : Fs) (root sub : APath) (key : Str)
+    (hr : dotdot ∉ root) (hsub : dotdot ∉ sub)
+    (habs : isAbs key = false) (hk : dotdot ∉ segs key) (hne : comps key ≠ []) :
+    (∀ f, put fs root sub key = .ok f → root <+: f) ∧
+    (∀ t, put fs root sub key = .err (some t) → root <+: t) ∧
+    (∀ loc, getCold fs root sub key = some loc → root <+: loc) :=
+  Cascette.Proofs.DiskFs.put_get_confined fs root sub key hr hsub habs hk hne
+
+/-- the temporary path of any `put` (also the transient one of a successful `put`) under the same
+hypotheses lies below the root — or is the directory path `<dir>/..`, on which no file can be
+created. -/
+theorem tmp_confined (tr : Bool) (root sub : APath) (key : Str)
+    (hr : dotdot ∉ root) (hsub : dotdot ∉ sub)
+    (habs : isAbs key = false) (hk : dotdot ∉ segs key) (hne : comps key ≠ []) :
+    root <+: normalize (withExtTmpRaw tr (diskPath root sub key)) ∨
+    withExtTmpRaw tr (diskPath root sub key) = (diskPath root sub key).dropLast ++ [dotdot] :=
+  Cascette.Proofs.DiskFs.tmp_confined tr root sub key hr hsub habs hk hne
+
+/-- in particular for every well-formed typed key, on every file-system state and layout. -/
+theorem put_get_confined_wf (fs : Fs) (root sub : APath) (k : Key)
+    (hr : dotdot ∉ root) (hsub : dotdot ∉ sub) (h : wfKey k = true) :
+    (∀ f, put fs root sub (cacheKey k) = .ok f → root <+: f) ∧
+    (∀ t, put fs root sub (cacheKey k) = .err (some t) → root <+: t) ∧
+    (∀ loc, getCold fs root sub (cacheKey k) = some loc → root <+: loc) := by
+  have hc := wfKey_segs_canon k h
+  apply put_get_confined fs root sub _ hr hsub (not_abs_of_canon _ hc) (no_dotdot_of_canon _ hc)
+  rw [comps_of_canon _ hc]
+  exact segsBy_ne_nil '/' _
+
+/-- ⟂ without the hypotheses the model's `put` writes outside (empty file system, root /p/r):
+key "../x" is stored in /p/x, key "" leaves /p/r.tmp behind, and a cold `get("../s")` opens /p/s. -/
+theorem put_get_counter :
+    put ⟨[[], [['p']], [['p'], ['r']]], []⟩ [['p'], ['r']] [] ['.', '.', '/', 'x']
+      = .ok [['p'], ['x']] ∧
+    put ⟨[[], [['p']], [['p'], ['r']]], []⟩ [['p'], ['r']] [] []
+      = .err (some [['p'], ['r', '.', 't', 'm', 'p']]) ∧
+    getCold ⟨[[], [['p']], [['p'], ['r']]], [[['p'], ['s']]]⟩ [['p'], ['r']] [] ['.', '.', '/', 's']
+      = some [['p'], ['s']] := by decide
 
 /-! ### temporary files of `write_file` -/
 
